@@ -37,6 +37,11 @@ Lemma word_at_app_leaves g f p :
   Forall (fun w => leaves w p 4) g -> word_at (g ++ f) p = word_at f p.
 Proof. intros H. unfold word_at. rewrite bytes_at_app_leaves; [reflexivity|exact H]. Qed.
 
+Lemma Forall_2 {A} (P : A -> Prop) a b : P a -> P b -> Forall P [a; b].
+Proof. intros. repeat constructor; assumption. Qed.
+Lemma Forall_4 {A} (P : A -> Prop) a b c d : P a -> P b -> P c -> P d -> Forall P [a; b; c; d].
+Proof. intros. repeat constructor; assumption. Qed.
+
 (* ---------- the invariant ---------- *)
 Record R (s : st) (m : amap) : Prop := {
   R_log : log_ok (img s);
@@ -226,11 +231,33 @@ Proof.
   - rewrite (R_absent s m HR j Hj Em). reflexivity.
 Qed.
 
+Lemma R_entry s m j : R s m -> j < 1024 -> getN (offs s) j <> 0 ->
+  2 <= sec_of (getN (offs s) j) /\ 1 <= cnt_of (getN (offs s) j).
+Proof.
+  intros HR Hj Ho. destruct (m j) as [d|] eqn:Em.
+  - destruct (R_present s m HR j d Hj Em) as (H1 & H2 & _). auto.
+  - exfalso. apply Ho. apply (R_absent s m HR j Hj Em).
+Qed.
+
+Lemma R_runs_apart s m i j : R s m -> i < 1024 -> j < 1024 -> i <> j ->
+  getN (offs s) i <> 0 -> getN (offs s) j <> 0 ->
+  let oi := getN (offs s) i in let oj := getN (offs s) j in
+  sec_of oj + cnt_of oj <= sec_of oi \/ sec_of oi + cnt_of oi <= sec_of oj.
+Proof.
+  intros HR Hi Hj Hij Hoi Hoj oi oj.
+  destruct (R_entry s m i HR Hi Hoi) as [A1 A2]. destruct (R_entry s m j HR Hj Hoj) as [B1 B2].
+  fold oi in A1, A2. fold oj in B1, B2.
+  destruct (N.le_gt_cases (sec_of oj + cnt_of oj) (sec_of oi)) as [L|L]; [left; exact L|].
+  destruct (N.le_gt_cases (sec_of oi + cnt_of oi) (sec_of oj)) as [L2|L2]; [right; exact L2|].
+  exfalso. apply (R_disj s m HR i j (N.max (sec_of oi) (sec_of oj)) Hi Hj Hij Hoi Hoj);
+    unfold run_of; fold oi; fold oj; lia.
+Qed.
+
 (* ---------- writing ---------- *)
 Lemma idx_lt x z : x < 32 -> z < 32 -> idx x z < 1024.
 Proof. unfold idx. lia. Qed.
 
-Lemma need_bounds d : let need := (lenN d + 4 + 4095) / 4096 in
+Lemma need_bounds (d : list N) : let need := (lenN d + 4 + 4095) / 4096 in
   1 <= need /\ lenN d + 4 <= 4096 * need /\ 4096 * need < lenN d + 4 + 4096.
 Proof. cbv zeta. lia. Qed.
 
@@ -257,21 +284,15 @@ Proof.
   destruct (R_present s m HR i dold Hi Em) as (P1 & P2 & P3 & P4 & P5 & P6 & P7). cbv zeta in *. fold o in P1, P2, P3, P4, P5, P6, P7.
   (* both writes stay inside the chunk's own run *)
   assert (Hsafe : Forall (safe_for s i) ws).
-  { unfold ws. repeat constructor; intros j Hj Hji; split.
+  { unfold ws. apply Forall_2; intros j Hj Hji; split.
     - apply inside_leaves with (a := 4096 * sec_of o) (b := 4096 * sec_of o + 4);
         rewrite ?wpos_mkwr, ?wend_mkwr, ?be4_lenN; lia.
     - intros Hoj. unfold leaves. rewrite wpos_mkwr, wend_mkwr, be4_lenN.
-      destruct (N.le_gt_cases (sec_of (getN (offs s) j) + cnt_of (getN (offs s) j)) (sec_of o)) as [L|L]; [right; lia|].
-      destruct (N.le_gt_cases (sec_of o + cnt_of o) (sec_of (getN (offs s) j))) as [L2|L2]; [left; lia|].
-      exfalso. apply (R_disj s m HR i j (N.max (sec_of o) (sec_of (getN (offs s) j))) Hi Hj ltac:(auto) Ho Hoj);
-        unfold run_of; fold o; lia.
+      destruct (R_runs_apart s m i j HR Hi Hj ltac:(auto) Ho Hoj) as [L|L]; cbv zeta in L; fold o in L; [right|left]; lia.
     - apply inside_leaves with (a := 4096 * sec_of o) (b := 4096 * sec_of o + 4 + lenN d);
         rewrite ?wpos_mkwr, ?wend_mkwr; lia.
     - intros Hoj. unfold leaves. rewrite wpos_mkwr, wend_mkwr.
-      destruct (N.le_gt_cases (sec_of (getN (offs s) j) + cnt_of (getN (offs s) j)) (sec_of o)) as [L|L]; [right; lia|].
-      destruct (N.le_gt_cases (sec_of o + cnt_of o) (sec_of (getN (offs s) j))) as [L2|L2]; [left; lia|].
-      exfalso. apply (R_disj s m HR i j (N.max (sec_of o) (sec_of (getN (offs s) j))) Hi Hj ltac:(auto) Ho Hoj);
-        unfold run_of; fold o; lia. }
+      destruct (R_runs_apart s m i j HR Hi Hj ltac:(auto) Ho Hoj) as [L|L]; cbv zeta in L; fold o in L; [right|left]; lia. }
   split; [|exact Hsafe].
   assert (Hlw : log_ok (rev ws)) by (unfold ws; cbn [rev app]; repeat constructor; apply mkwr_ok).
   pose proof (R_log s m HR) as Hlog.
@@ -280,9 +301,9 @@ Proof.
   - pose proof (fsize_app_ge (rev ws) (img s)). pose proof (R_size s m HR). lia.
   - (* header unchanged: both writes are at >= 8192 *)
     intros j Hj. rewrite <- (R_hdr s m HR j Hj). apply word_at_app_leaves.
-    unfold ws. cbn [rev app]. repeat constructor; unfold leaves; rewrite wpos_mkwr; right; lia.
+    unfold ws. cbn [rev app]. apply Forall_2; unfold leaves; rewrite wpos_mkwr; right; lia.
   - intros j Hj. rewrite <- (R_ts s m HR j Hj). apply word_at_app_leaves.
-    unfold ws. cbn [rev app]. repeat constructor; unfold leaves; rewrite wpos_mkwr; right; lia.
+    unfold ws. cbn [rev app]. apply Forall_2; unfold leaves; rewrite wpos_mkwr; right; lia.
   - intros j Hj Hm. unfold aupd in Hm. destruct (N.eqb_spec j i); [discriminate|]. apply (R_absent s m HR j Hj Hm).
   - intros j dj Hj Hm. unfold aupd in Hm. cbv zeta. destruct (N.eqb_spec j i) as [->|Hji].
     + inversion Hm; subst dj. fold o. unfold ws. cbn [rev app].
@@ -292,7 +313,7 @@ Proof.
         change (2^32) with 4294967296. pose proof (cnt_of_lt o). lia.
       * apply bytes_at_cons_exact.
       * destruct (N.eq_dec (lenN d) 0) as [E|E].
-        -- rewrite E, N.add_0_r.
+        -- replace (4096 * sec_of o + 4 + lenN d) with (4096 * sec_of o + 4) by lia.
            pose proof (fsize_cons_ge (mkwr (4096 * sec_of o + 4) d) (mkwr (4096 * sec_of o) (be 4 (lenN d)) :: img s)).
            pose proof (fsize_cons_end (mkwr (4096 * sec_of o) (be 4 (lenN d))) (img s)) as H9.
            rewrite wlen_mkwr, wend_mkwr, be4_lenN in H9. specialize (H9 ltac:(lia)). lia.
@@ -310,4 +331,444 @@ Proof.
   - apply (R_disj s m HR).
   - apply (R_hw s m HR).
   - apply (R_hwlim s m HR).
+Qed.
+
+(* the allocating path *)
+Section Alloc.
+  Variables (s : st) (m : amap) (i : N) (d : list N) (now n' : N).
+  Hypothesis HR : R s m.
+  Hypothesis Hi : i < 1024.
+  Let o := getN (offs s) i.
+  Let need := (lenN d + 4 + 4095) / 4096.
+  Hypothesis Hneed : need < 256.
+  Let u1 := mark (used s) (sec_of o) (N.to_nat (cnt_of o)) false.
+  Hypothesis Hfree : forall j, j < need -> getB u1 (n' + j) = false.
+  Hypothesis Hlim : n' + need < sector_limit.
+  Let u2 := mark u1 n' (N.to_nat need) true.
+  Let o' := n' * 256 + need.
+  Let ws := [ mkwr (4 * i) (be 4 o'); mkwr (4096 + 4 * i) (be 4 (now mod 2^32));
+              mkwr (4096 * n') (be 4 (lenN d)); mkwr (4096 * n' + 4) d ].
+
+  Lemma alloc_need : 1 <= need /\ lenN d + 4 <= 4096 * need.
+  Proof. destruct (need_bounds d) as (A & B & _). auto. Qed.
+
+  Lemma alloc_old_entry : o = 0 \/ (2 <= sec_of o /\ 1 <= cnt_of o).
+  Proof.
+    destruct (N.eq_dec o 0) as [E|E]; [left; exact E|right]. apply (R_entry s m i HR Hi E).
+  Qed.
+
+  Lemma alloc_u1_spec k :
+    getB u1 k = if (sec_of o <=? k) && (k <? sec_of o + cnt_of o) then false else getB (used s) k.
+  Proof. unfold u1. rewrite mark_spec. rewrite N2Nat.id. reflexivity. Qed.
+
+  Lemma alloc_u1_01 : getB u1 0 = true /\ getB u1 1 = true.
+  Proof.
+    destruct (R_used01 s m HR) as [A B]. rewrite !alloc_u1_spec.
+    destruct alloc_old_entry as [E|[E1 E2]].
+    - rewrite E. change (sec_of 0) with 0. change (cnt_of 0) with 0. cbn. auto.
+    - assert ((sec_of o <=? 0) = false) as -> by lia.
+      assert ((sec_of o <=? 1) = false) as -> by lia. cbn [andb]. auto.
+  Qed.
+
+  Lemma alloc_n'_ge2 : 2 <= n'.
+  Proof.
+    destruct alloc_need as [N1 _]. destruct alloc_u1_01 as [A B].
+    pose proof (Hfree 0 ltac:(lia)) as F. rewrite N.add_0_r in F.
+    destruct (N.eq_dec n' 0) as [->|]; [congruence|].
+    destruct (N.eq_dec n' 1) as [->|]; [congruence|]. lia.
+  Qed.
+
+  Lemma alloc_other_used j k : j < 1024 -> j <> i -> getN (offs s) j <> 0 ->
+    run_of (getN (offs s) j) k -> getB u1 k = true.
+  Proof.
+    intros Hj Hji Hoj Hk. rewrite alloc_u1_spec.
+    rewrite (R_used s m HR j k Hj Hoj Hk).
+    destruct (N.eq_dec o 0) as [E|E].
+    - rewrite E. change (sec_of 0) with 0. change (cnt_of 0) with 0.
+      destruct (0 <=? k); destruct (k <? 0 + 0) eqn:E2; cbn [andb]; auto. lia.
+    - destruct (R_runs_apart s m i j HR Hi Hj ltac:(auto) E Hoj) as [L|L]; cbv zeta in L; fold o in L;
+        unfold run_of in Hk;
+        destruct (N.leb_spec (sec_of o) k); destruct (N.ltb_spec k (sec_of o + cnt_of o)); cbn [andb]; auto; lia.
+  Qed.
+
+  Lemma alloc_apart j : j < 1024 -> j <> i -> getN (offs s) j <> 0 ->
+    let oj := getN (offs s) j in n' + need <= sec_of oj \/ sec_of oj + cnt_of oj <= n'.
+  Proof.
+    intros Hj Hji Hoj oj. destruct alloc_need as [N1 _].
+    destruct (R_entry s m j HR Hj Hoj) as [B1 B2]. fold oj in B1, B2.
+    destruct (N.le_gt_cases (n' + need) (sec_of oj)) as [L|L]; [left; exact L|].
+    destruct (N.le_gt_cases (sec_of oj + cnt_of oj) n') as [L2|L2]; [right; exact L2|].
+    exfalso. set (k := N.max n' (sec_of oj)).
+    assert (T : getB u1 k = true) by (apply (alloc_other_used j k Hj Hji Hoj); unfold run_of; fold oj; unfold k; lia).
+    assert (F : getB u1 k = false).
+    { replace k with (n' + (k - n')) by (unfold k; lia). apply Hfree. unfold k. lia. }
+    congruence.
+  Qed.
+
+  Lemma alloc_o' : o' < 2^32 /\ sec_of o' = n' /\ cnt_of o' = need.
+  Proof.
+    unfold sector_limit in Hlim.
+    destruct (sec_cnt_of n' need ltac:(lia) Hneed) as [A B]. fold o' in A, B.
+    repeat split; auto. unfold o'. change (2^23) with 8388608 in Hlim. change (2^32) with 4294967296. lia.
+  Qed.
+
+  Lemma alloc_safe : Forall (safe_for s i) ws.
+  Proof.
+    destruct alloc_need as [N1 N2]. pose proof alloc_n'_ge2 as N3.
+    unfold ws. apply Forall_4; intros j Hj Hji; split.
+    - unfold leaves. rewrite wpos_mkwr, wend_mkwr, be4_lenN. lia.
+    - intros Hoj. destruct (R_entry s m j HR Hj Hoj) as [B1 B2].
+      unfold leaves. rewrite wpos_mkwr, wend_mkwr, be4_lenN. left. lia.
+    - unfold leaves. rewrite wpos_mkwr, wend_mkwr, be4_lenN. right. lia.
+    - intros Hoj. destruct (R_entry s m j HR Hj Hoj) as [B1 B2].
+      unfold leaves. rewrite wpos_mkwr, wend_mkwr, be4_lenN. left. lia.
+    - unfold leaves. rewrite wpos_mkwr, wend_mkwr, be4_lenN. right. lia.
+    - intros Hoj. destruct (alloc_apart j Hj Hji Hoj) as [L|L]; cbv zeta in L;
+        unfold leaves; rewrite wpos_mkwr, wend_mkwr, be4_lenN; [left|right]; lia.
+    - unfold leaves. rewrite wpos_mkwr, wend_mkwr. right. lia.
+    - intros Hoj. destruct (alloc_apart j Hj Hji Hoj) as [L|L]; cbv zeta in L;
+        unfold leaves; rewrite wpos_mkwr, wend_mkwr; [left|right]; lia.
+  Qed.
+
+  Lemma alloc_R :
+    R {| offs := setN (offs s) i o'; tss := setN (tss s) i (now mod 2^32); used := u2;
+         hwm := N.max (hwm s) (n' + need); img := rev ws ++ img s |} (aupd m i d).
+  Proof.
+    destruct alloc_need as [N1 N2]. pose proof alloc_n'_ge2 as N3.
+    destruct alloc_o' as (O1 & O2 & O3).
+    pose proof alloc_safe as Hsafe.
+    assert (Hrs : Forall (safe_for s i) (rev ws)) by (apply Forall_rev; exact Hsafe).
+    assert (Hlw : log_ok (rev ws)) by (unfold ws; cbn [rev app]; repeat constructor; apply mkwr_ok).
+    pose proof (R_log s m HR) as Hlog.
+    assert (Hu2 : forall k, getB u2 k = if (n' <=? k) && (k <? n' + need) then true else getB u1 k).
+    { intros k. unfold u2. rewrite mark_spec, N2Nat.id. reflexivity. }
+    constructor; cbn [img offs tss used hwm].
+    - apply Forall_app. split; assumption.
+    - pose proof (fsize_app_ge (rev ws) (img s)). pose proof (R_size s m HR). lia.
+    - (* header *)
+      intros j Hj. destruct (N.eq_dec j i) as [->|Hji].
+      + rewrite getN_set_same. unfold ws. cbn [rev app]. unfold word_at.
+        rewrite !bytes_at_cons_skip by (rewrite wpos_mkwr; right; lia).
+        rewrite <- (be4_len o'). rewrite bytes_at_cons_exact. apply unbe_be4. exact O1.
+      + rewrite getN_set_other by exact Hji. rewrite (safe_header (rev ws) s i j Hrs Hj Hji).
+        apply (R_hdr s m HR j Hj).
+    - (* timestamps *)
+      intros j Hj. destruct (N.eq_dec j i) as [->|Hji].
+      + rewrite getN_set_same. unfold ws. cbn [rev app]. unfold word_at.
+        rewrite !bytes_at_cons_skip by (rewrite wpos_mkwr; right; lia).
+        rewrite <- (be4_len (now mod 2^32)). rewrite bytes_at_cons_exact. apply unbe_be4.
+        apply N.mod_lt. discriminate.
+      + rewrite getN_set_other by exact Hji. rewrite <- (R_ts s m HR j Hj).
+        apply word_at_app_leaves. unfold ws. cbn [rev app].
+        apply Forall_4; unfold leaves; rewrite wpos_mkwr, wend_mkwr, ?be4_lenN; lia.
+    - intros j Hj Hm. unfold aupd in Hm. destruct (N.eqb_spec j i); [discriminate|].
+      rewrite getN_set_other by assumption. apply (R_absent s m HR j Hj Hm).
+    - intros j dj Hj Hm. unfold aupd in Hm. cbv zeta. destruct (N.eqb_spec j i) as [->|Hji].
+      + inversion Hm; subst dj. rewrite getN_set_same, O2, O3. unfold ws. cbn [rev app].
+        repeat split; try lia.
+        * unfold word_at. rewrite bytes_at_cons_skip by (rewrite wpos_mkwr; right; lia).
+          rewrite <- (be4_len (lenN d)). rewrite bytes_at_cons_exact. apply unbe_be4.
+          change (2^32) with 4294967296. lia.
+        * apply bytes_at_cons_exact.
+        * destruct (N.eq_dec (lenN d) 0) as [E|E].
+          -- replace (4096 * n' + 4 + lenN d) with (4096 * n' + 4) by lia.
+             match goal with |- _ <= fsize (?a :: ?b :: ?f) =>
+               pose proof (fsize_cons_ge a (b :: f)); pose proof (fsize_cons_end b f) as H9 end.
+             rewrite wlen_mkwr, wend_mkwr, be4_lenN in H9. specialize (H9 ltac:(lia)). lia.
+          -- match goal with |- _ <= fsize (?a :: ?f) => pose proof (fsize_cons_end a f) as H9 end.
+             rewrite wlen_mkwr, wend_mkwr in H9. specialize (H9 E). lia.
+      + rewrite getN_set_other by exact Hji.
+        pose proof (R_nonzero s m j dj HR Hj Hm) as Hoj.
+        destruct (R_present s m HR j dj Hj Hm) as (Q1 & Q2 & Q3 & Q4 & Q5 & Q6 & Q7). cbv zeta in *.
+        repeat split; auto.
+        * unfold word_at. rewrite (safe_run_bytes (rev ws) s i j) by (auto; lia). exact Q4.
+        * rewrite (safe_run_bytes (rev ws) s i j) by (auto; unfold lenN in *; lia). exact Q5.
+        * pose proof (fsize_app_ge (rev ws) (img s)). lia.
+        * lia.
+    - (* used covers every run *)
+      intros j k Hj Hoj Hk. rewrite Hu2. destruct (N.eq_dec j i) as [->|Hji].
+      + rewrite getN_set_same in Hk. unfold run_of in Hk. rewrite O2, O3 in Hk.
+        assert ((n' <=? k) = true) as -> by lia. assert ((k <? n' + need) = true) as -> by lia. reflexivity.
+      + rewrite getN_set_other in Hk, Hoj by exact Hji.
+        rewrite (alloc_other_used j k Hj Hji Hoj Hk). destruct ((n' <=? k) && (k <? n' + need)); reflexivity.
+    - destruct alloc_u1_01 as [A B]. rewrite !Hu2, A, B.
+      split; destruct (_ && _); reflexivity.
+    - (* disjointness *)
+      intros a b k Ha Hb Hab Hoa Hob Hka Hkb.
+      destruct (N.eq_dec a i) as [->|Hai]; destruct (N.eq_dec b i) as [->|Hbi]; try contradiction.
+      + rewrite getN_set_same in Hka. rewrite getN_set_other in Hkb, Hob by (intros E; apply Hab; now rewrite E).
+        unfold run_of in *. rewrite O2, O3 in Hka.
+        destruct (alloc_apart b Hb ltac:(auto) Hob) as [L|L]; cbv zeta in L; lia.
+      + rewrite getN_set_same in Hkb. rewrite getN_set_other in Hka, Hoa by exact Hai.
+        unfold run_of in *. rewrite O2, O3 in Hkb.
+        destruct (alloc_apart a Ha Hai Hoa) as [L|L]; cbv zeta in L; lia.
+      + rewrite getN_set_other in Hka, Hoa by exact Hai. rewrite getN_set_other in Hkb, Hob by exact Hbi.
+        apply (R_disj s m HR a b k Ha Hb Hab Hoa Hob Hka Hkb).
+    - intros k Hk. rewrite Hu2 in Hk.
+      destruct (N.leb_spec n' k); destruct (N.ltb_spec k (n' + need)); cbn [andb] in Hk; try lia;
+        rewrite alloc_u1_spec in Hk;
+        destruct ((sec_of o <=? k) && (k <? sec_of o + cnt_of o)); try discriminate;
+        pose proof (R_hw s m HR k Hk); lia.
+    - pose proof (R_hwlim s m HR). lia.
+  Qed.
+End Alloc.
+
+Definition write_post (s : st) (m : amap) (i : N) (d : list N) (s' : st) (ws : list wr) (r : wres) : Prop :=
+  match r with
+  | WOk => R s' (aupd m i d) /\ Forall (safe_for s i) ws /\ log_ok ws /\ img s' = rev ws ++ img s
+           /\ lenN d + 4 <= 255 * 4096
+  | WTooLarge => s' = s /\ ws = [] /\ 255 * 4096 < lenN d + 4
+  | WOutside => s' = s /\ ws = []
+  end.
+
+Theorem write_correct s m x z d now s' ws r :
+  R s m -> x < 32 -> z < 32 ->
+  write_sector s x z d now = (s', ws, r) -> write_post s m (idx x z) d s' ws r.
+Proof.
+  intros HR Hx Hz. pose proof (idx_lt x z Hx Hz) as Hi.
+  unfold write_sector. rewrite flen_lenN. cbv zeta.
+  set (i := idx x z) in *. set (o := getN (offs s) i). set (need := (lenN d + 4 + 4095) / 4096).
+  destruct (need_bounds d) as (N1 & N2 & N3). fold need in N1, N2, N3.
+  destruct (N.leb_spec 256 need) as [Hbig|Hsmall].
+  { intros E. inversion E; subst. cbn. repeat split; auto. lia. }
+  destruct (negb (sec_of o =? 0) && (cnt_of o =? need)) eqn:Einp.
+  - (* in place *)
+    intros E. inversion E; subst s' ws r. clear E.
+    apply andb_true_iff in Einp. destruct Einp as [E1 E2].
+    assert (Hsec : sec_of o <> 0) by (destruct (N.eqb_spec (sec_of o) 0); [discriminate|auto]).
+    apply N.eqb_eq in E2.
+    destruct (write_inplace s m i d HR Hi Hsec E2) as [A B].
+    cbn. split; [exact A|]. split; [exact B|]. split; [apply Forall_2; apply mkwr_ok|].
+    split; [reflexivity|lia].
+  - (* allocate *)
+    set (u1 := mark (used s) (sec_of o) (N.to_nat (cnt_of o)) false).
+    assert (HE : forall k, hwm s <= k -> getB u1 k = false).
+    { intros k Hk. unfold u1, o. rewrite (alloc_u1_spec s i k).
+      destruct ((sec_of (getN (offs s) i) <=? k) && (k <? sec_of (getN (offs s) i) + cnt_of (getN (offs s) i))); [reflexivity|].
+      destruct (getB (used s) k) eqn:Eu; [|reflexivity]. pose proof (R_hw s m HR k Eu). lia. }
+    destruct (find_space_spec (hwm s) u1 need HE (N.to_nat (hwm s + need + 2)) 0 0
+                ltac:(lia) ltac:(lia) ltac:(intros j Hj; lia) ltac:(lia)) as (n' & Hfs & Hfree & _ & Hn').
+    rewrite Hfs.
+    destruct (N.leb_spec sector_limit (n' + need)) as [Hout|Hin].
+    { intros E. inversion E; subst. cbn. auto. }
+    intros E. inversion E; subst s' ws r. clear E.
+    cbn. split; [apply (alloc_R s m i d now n' HR Hi Hsmall Hfree Hin)|].
+    split; [apply (alloc_safe s m i d now n' HR Hi Hsmall Hfree Hin)|].
+    split; [apply Forall_4; apply mkwr_ok|]. split; [reflexivity|lia].
+Qed.
+
+(* ---------- padding ---------- *)
+Theorem pad_correct s m s' ws : R s m -> pad s = (s', ws) -> R s' m /\ fsize (img s') mod 4096 = 0.
+Proof.
+  intros HR. unfold pad. cbv zeta.
+  remember (fsize (img s)) as size eqn:Esize.
+  remember (mkwr size (fzeros (4096 - size mod 4096))) as w eqn:Ew.
+  destruct (N.eqb_spec (size mod 4096) 0) as [E|E].
+  { intros H. inversion H; subst. auto. }
+  intros H. inversion H; subst s' ws. clear H.
+  pose proof (R_size s m HR) as Hsz. rewrite <- Esize in Hsz.
+  assert (Hlen : wlen w = 4096 - size mod 4096) by (rewrite Ew, wlen_mkwr; apply lenN_fzeros).
+  assert (Hpos : wpos w = size) by (rewrite Ew; reflexivity).
+  split.
+  - constructor; cbn [img offs tss used hwm].
+    + constructor; [rewrite Ew; apply mkwr_ok|apply (R_log s m HR)].
+    + pose proof (fsize_cons_ge w (img s)). rewrite <- Esize in H. lia.
+    + intros j Hj. rewrite <- (R_hdr s m HR j Hj). unfold word_at.
+      rewrite bytes_at_cons_skip; [reflexivity|]. right. rewrite Hpos. lia.
+    + intros j Hj. rewrite <- (R_ts s m HR j Hj). unfold word_at.
+      rewrite bytes_at_cons_skip; [reflexivity|]. right. rewrite Hpos. lia.
+    + apply (R_absent s m HR).
+    + intros j dj Hj Hm. destruct (R_present s m HR j dj Hj Hm) as (Q1 & Q2 & Q3 & Q4 & Q5 & Q6 & Q7).
+      cbv zeta in *. rewrite <- Esize in Q6. repeat split; auto.
+      * unfold word_at. rewrite bytes_at_cons_skip; [exact Q4|]. right. rewrite Hpos. lia.
+      * rewrite bytes_at_cons_skip; [exact Q5|]. right. rewrite Hpos. unfold lenN in *. lia.
+      * pose proof (fsize_cons_ge w (img s)). rewrite <- Esize in H. lia.
+    + apply (R_used s m HR).
+    + apply (R_used01 s m HR).
+    + apply (R_disj s m HR).
+    + apply (R_hw s m HR).
+    + apply (R_hwlim s m HR).
+  - cbn [img fsize]. rewrite <- Esize. rewrite Hlen. unfold wend. rewrite Hpos, Hlen.
+    assert (size mod 4096 < 4096) by (apply N.mod_lt; discriminate).
+    destruct (N.eqb_spec (4096 - size mod 4096) 0); [lia|].
+    replace (N.max (size + (4096 - size mod 4096)) size) with (size + (4096 - size mod 4096)) by lia.
+    assert (size = 4096 * (size / 4096) + size mod 4096) by (apply N.div_mod; discriminate).
+    replace (size + (4096 - size mod 4096)) with ((size / 4096 + 1) * 4096) by lia.
+    apply N.mod_mul. discriminate.
+Qed.
+
+(* ---------- loading ---------- *)
+Lemma bytes_at_4 f p : bytes_at f p 4 = [byte_at f (p + 0); byte_at f (p + 1); byte_at f (p + 2); byte_at f (p + 3)].
+Proof. reflexivity. Qed.
+
+Lemma words_bytes_at f : forall n p,
+  words (bytes_at f p (4 * n)) n = map (fun k => word_at f (p + 4 * N.of_nat k)) (seq 0 n).
+Proof.
+  induction n as [|n IH]; intros p; [reflexivity|].
+  replace (4 * S n)%nat with (4 + 4 * n)%nat by lia.
+  rewrite bytes_at_app. rewrite bytes_at_4. cbn [app words].
+  change (N.of_nat 4) with 4. rewrite IH. cbn [seq map]. f_equal.
+  - unfold word_at. rewrite bytes_at_4. repeat f_equal; lia.
+  - rewrite <- seq_shift, map_map. apply map_ext. intros k. f_equal. lia.
+Qed.
+
+Lemma tab_of_spec ws : forall i0 m j,
+  getN (tab_of ws i0 m) j =
+  if (i0 <=? j) && (j <? i0 + lenN ws) then nth (N.to_nat (j - i0)) ws 0 else getN m j.
+Proof.
+  induction ws as [|w t IH]; intros i0 m j; cbn [tab_of].
+  - rewrite lenN_nil. destruct (N.leb_spec i0 j); destruct (N.ltb_spec j (i0 + 0)); cbn [andb]; auto; lia.
+  - rewrite IH, lenN_cons.
+    destruct (N.leb_spec (i0 + 1) j); destruct (N.ltb_spec j (i0 + 1 + lenN t));
+    destruct (N.leb_spec i0 j); destruct (N.ltb_spec j (i0 + (1 + lenN t))); cbn [andb]; try lia.
+    + replace (N.to_nat (j - i0)) with (S (N.to_nat (j - (i0 + 1)))) by lia. reflexivity.
+    + rewrite getN_set_other by lia. reflexivity.
+    + assert (j = i0) by lia. subst j. rewrite getN_set_same, N.sub_diag. reflexivity.
+    + rewrite getN_set_other by lia. reflexivity.
+Qed.
+
+Lemma load_tab_spec f base j : log_ok f -> j < 1024 ->
+  getN (load_tab f base) j = word_at f (base + 4 * j).
+Proof.
+  intros Hlog Hj. unfold load_tab. rewrite read_range_eq by exact Hlog.
+  change (N.to_nat 4096) with (4 * 1024)%nat. rewrite words_bytes_at, tab_of_spec.
+  unfold lenN. rewrite map_length, seq_length. change (N.of_nat 1024) with 1024.
+  assert ((0 <=? j) = true) as -> by lia. assert ((j <? 0 + 1024) = true) as -> by lia. cbn [andb].
+  rewrite N.sub_0_r.
+  rewrite (nth_indep _ 0 (word_at f (base + 4 * N.of_nat 0))) by (rewrite map_length, seq_length; lia).
+  rewrite (map_nth (fun k => word_at f (base + 4 * N.of_nat k))).
+  rewrite seq_nth by lia. f_equal. lia.
+Qed.
+
+
+Section LoadFolds.
+  Variable o : nmap.
+  Let ustep := fun (u : bmap) (i : nat) => let w := getN o (N.of_nat i) in
+                 if sec_of w =? 0 then u else mark u (sec_of w) (N.to_nat (cnt_of w)) true.
+  Let hstep := fun (h : N) (i : nat) => let w := getN o (N.of_nat i) in
+                 if sec_of w =? 0 then h else N.max h (sec_of w + cnt_of w).
+
+  Lemma ustep_mono u i k : getB u k = true -> getB (ustep u i) k = true.
+  Proof.
+    intros H. unfold ustep. cbv zeta. destruct (sec_of (getN o (N.of_nat i)) =? 0); [exact H|].
+    rewrite mark_spec, H. destruct (_ && _); reflexivity.
+  Qed.
+
+  Lemma ufold_mono l : forall u k, getB u k = true -> getB (fold_left ustep l u) k = true.
+  Proof. induction l as [|i l IH]; intros u k H; cbn [fold_left]; [exact H|]. apply IH, ustep_mono, H. Qed.
+
+  Lemma ufold_covers l : forall u i k, In i l ->
+    sec_of (getN o (N.of_nat i)) <> 0 -> run_of (getN o (N.of_nat i)) k ->
+    getB (fold_left ustep l u) k = true.
+  Proof.
+    induction l as [|a l IH]; intros u i k Hin Hs Hk; [destruct Hin|].
+    cbn [fold_left]. destruct Hin as [->|Hin]; [|eapply IH; eauto].
+    apply ufold_mono. unfold ustep. cbv zeta.
+    destruct (N.eqb_spec (sec_of (getN o (N.of_nat i))) 0); [contradiction|].
+    rewrite mark_spec, N2Nat.id. unfold run_of in Hk.
+    assert ((sec_of (getN o (N.of_nat i)) <=? k) = true) as -> by lia.
+    assert ((k <? sec_of (getN o (N.of_nat i)) + cnt_of (getN o (N.of_nat i))) = true) as -> by lia.
+    reflexivity.
+  Qed.
+
+  Lemma ufold_sound l : forall u k, getB (fold_left ustep l u) k = true ->
+    getB u k = true \/ exists i, In i l /\ sec_of (getN o (N.of_nat i)) <> 0 /\ run_of (getN o (N.of_nat i)) k.
+  Proof.
+    induction l as [|a l IH]; intros u k H; cbn [fold_left] in H; [left; exact H|].
+    destruct (IH _ _ H) as [H1|(i & Hi & Hs & Hk)].
+    - unfold ustep in H1. cbv zeta in H1.
+      destruct (N.eqb_spec (sec_of (getN o (N.of_nat a))) 0) as [E|E]; [left; exact H1|].
+      rewrite mark_spec, N2Nat.id in H1.
+      destruct (N.leb_spec (sec_of (getN o (N.of_nat a))) k);
+      destruct (N.ltb_spec k (sec_of (getN o (N.of_nat a)) + cnt_of (getN o (N.of_nat a)))); cbn [andb] in H1;
+        try (left; exact H1).
+      right. exists a. split; [left; reflexivity|]. split; [exact E|]. unfold run_of. lia.
+    - right. exists i. split; [right; exact Hi|auto].
+  Qed.
+
+  Lemma hfold_ge l : forall h, h <= fold_left hstep l h.
+  Proof.
+    induction l as [|a l IH]; intros h; cbn [fold_left]; [lia|].
+    specialize (IH (hstep h a)). unfold hstep in *. cbv zeta in *.
+    destruct (sec_of (getN o (N.of_nat a)) =? 0); lia.
+  Qed.
+
+  Lemma hfold_covers l : forall h i, In i l -> sec_of (getN o (N.of_nat i)) <> 0 ->
+    sec_of (getN o (N.of_nat i)) + cnt_of (getN o (N.of_nat i)) <= fold_left hstep l h.
+  Proof.
+    induction l as [|a l IH]; intros h i Hin Hs; [destruct Hin|].
+    cbn [fold_left]. destruct Hin as [->|Hin]; [|apply IH; auto].
+    pose proof (hfold_ge l (hstep h i)) as G.
+    assert (E : sec_of (getN o (N.of_nat i)) + cnt_of (getN o (N.of_nat i)) <= hstep h i).
+    { unfold hstep. cbv zeta. destruct (N.eqb_spec (sec_of (getN o (N.of_nat i))) 0); [contradiction|]. lia. }
+    lia.
+  Qed.
+
+  Lemma hfold_le l B : (forall i, In i l -> sec_of (getN o (N.of_nat i)) <> 0 ->
+      sec_of (getN o (N.of_nat i)) + cnt_of (getN o (N.of_nat i)) <= B) ->
+    forall h, h <= B -> fold_left hstep l h <= B.
+  Proof.
+    induction l as [|a l IH]; intros HB h Hh; cbn [fold_left]; [exact Hh|].
+    apply IH; [intros i Hi; apply HB; right; exact Hi|].
+    unfold hstep. cbv zeta. destruct (N.eqb_spec (sec_of (getN o (N.of_nat a))) 0); [exact Hh|].
+    specialize (HB a ltac:(left; reflexivity) n). lia.
+  Qed.
+End LoadFolds.
+
+Lemma in_seq_1024 j : j < 1024 -> In (N.to_nat j) (seq 0 1024).
+Proof. intros H. apply in_seq. lia. Qed.
+
+Theorem load_correct s m : R s m ->
+  exists s', load (img s) = LOk s' /\ R s' m /\ img s' = img s /\
+    (forall j, j < 1024 -> getN (offs s') j = getN (offs s) j /\ getN (tss s') j = getN (tss s) j).
+Proof.
+  intros HR. pose proof (R_log s m HR) as Hlog. pose proof (R_size s m HR) as Hsz.
+  unfold load. assert ((fsize (img s) <? 8192) = false) as -> by lia.
+  eexists. split; [reflexivity|].
+  set (o := load_tab (img s) 0).
+  assert (Ho : forall j, j < 1024 -> getN o j = getN (offs s) j).
+  { intros j Hj. unfold o. rewrite load_tab_spec by assumption. rewrite N.add_0_l. apply (R_hdr s m HR j Hj). }
+  assert (Ht : forall j, j < 1024 -> getN (load_tab (img s) 4096) j = getN (tss s) j).
+  { intros j Hj. rewrite load_tab_spec by assumption. apply (R_ts s m HR j Hj). }
+  assert (Hoi : forall i, In i (seq 0 1024) -> getN o (N.of_nat i) = getN (offs s) (N.of_nat i)).
+  { intros i Hi. apply in_seq in Hi. apply Ho. lia. }
+  split; [|split; [reflexivity|intros j Hj; cbn [offs tss]; auto]].
+  constructor; cbn [img offs tss used hwm].
+  - exact Hlog.
+  - exact Hsz.
+  - intros j Hj. rewrite Ho by exact Hj. apply (R_hdr s m HR j Hj).
+  - intros j Hj. rewrite Ht by exact Hj. apply (R_ts s m HR j Hj).
+  - intros j Hj Hm. rewrite Ho by exact Hj. apply (R_absent s m HR j Hj Hm).
+  - intros j dj Hj Hm. rewrite Ho by exact Hj.
+    pose proof (R_nonzero s m j dj HR Hj Hm) as Hnz.
+    destruct (R_present s m HR j dj Hj Hm) as (Q1 & Q2 & Q3 & Q4 & Q5 & Q6 & Q7). cbv zeta in *.
+    repeat split; auto.
+    unfold load_hwm.
+    pose proof (hfold_covers o (seq 0 1024) 2 (N.to_nat j) (in_seq_1024 j Hj)) as G.
+    rewrite N2Nat.id, Ho in G by exact Hj. apply G. lia.
+  - intros j k Hj Hoj Hk. rewrite Ho in Hoj, Hk by exact Hj.
+    destruct (R_entry s m j HR Hj Hoj) as [E1 E2].
+    unfold load_used.
+    apply (ufold_covers o (seq 0 1024) _ (N.to_nat j) k (in_seq_1024 j Hj));
+      rewrite N2Nat.id, Ho by exact Hj; [lia|exact Hk].
+  - unfold load_used. split; apply ufold_mono.
+    + rewrite getB_set_other by lia. apply getB_set_same.
+    + apply getB_set_same.
+  - intros a b k Ha Hb Hab Hoa Hob Hka Hkb. rewrite Ho in Hoa, Hka by exact Ha. rewrite Ho in Hob, Hkb by exact Hb.
+    apply (R_disj s m HR a b k Ha Hb Hab Hoa Hob Hka Hkb).
+  - intros k Hk. unfold load_used in Hk. apply ufold_sound in Hk.
+    unfold load_hwm. destruct Hk as [Hk|(i & Hi & Hs & Hr)].
+    + pose proof (hfold_ge o (seq 0 1024) 2).
+      rewrite !getB_set in Hk. destruct (N.eqb_spec k 1); [lia|]. destruct (N.eqb_spec k 0); [lia|].
+      rewrite getB_empty in Hk. discriminate.
+    + pose proof (hfold_covers o (seq 0 1024) 2 i Hi Hs). unfold run_of in Hr. lia.
+  - unfold load_hwm. apply hfold_le.
+    + intros i Hi Hs. rewrite (Hoi i Hi) in *. apply in_seq in Hi.
+      assert (Hnz : getN (offs s) (N.of_nat i) <> 0).
+      { intros E. apply Hs. rewrite E. reflexivity. }
+      destruct (m (N.of_nat i)) as [di|] eqn:Em.
+      * destruct (R_present s m HR (N.of_nat i) di ltac:(lia) Em) as (_ & _ & _ & _ & _ & _ & Q7). cbv zeta in Q7.
+        pose proof (R_hwlim s m HR). lia.
+      * exfalso. apply Hnz. apply (R_absent s m HR (N.of_nat i) ltac:(lia) Em).
+    + unfold sector_limit. change (2^23) with 8388608. lia.
 Qed.
